@@ -11,8 +11,8 @@ Property theorems only; helper lemmas live in `VncModel/Ws/Lemmas*.lean`, the mo
 `VncModel/Ws/{Bytes,Base64,Codec,Decoder,Handshake}.lean`, the specification vocabulary
 (`Frame`, `ValidSeq`, `expected`, `run`, `Env.FaultFree`, `Env.Safe`) in `VncModel/Ws/Spec.lean`.
 
-**What is modelled.**  The hybi frame decoder `ws_decode.c` *with fixes/C09-ws-header-split.diff
-applied* (`decode` = `webSocketsDecodeHybi`, transliterated function by function; the 2062-byte
+**What is modelled.**  The hybi frame decoder `ws_decode.c` *with fixes/C09-ws-header-split.diff and
+fixes/C09-control-frame-limits.diff applied* (`decode` = `webSocketsDecodeHybi`, transliterated function by function; the 2062-byte
 buffer as explicit offsets; every `readFunc` call goes through the oracle `Env.read`, which answers
 with a non-empty prefix of the pending bytes, EAGAIN, end of stream or a hard error and records the
 request); the encoder `webSocketsEncodeHybi` and the 32 KiB chunking of `rfbWriteExact`; base64.c;
@@ -32,8 +32,8 @@ every call's result, every read request and the whole decoder state are compared
 * `decoder_complete` — if moreover all input is consumed and nothing is buffered, the caller has
   received exactly the whole payload stream.  `decoder_progress` — no stall: every call delivers
   bytes or consumes input unless the transport has nothing to give.
-* `strict_*` — unmasked frame, fragmented control frame, continuation without start, non-minimal
-  length encodings, Close: the call ends with EPROTO / ECONNRESET (decoder reset) and never returns
+* `strict_*` — unmasked frame, fragmented control frame, continuation without start, reserved
+  opcode, control frame longer than 125 bytes, non-minimal length encodings, Close: the call ends with EPROTO / ECONNRESET (decoder reset) and never returns
   payload; quantified over every decoder state and every oracle.
 * `header_roundtrip`, `encoder_valid`, `write_chunking_valid` — what the server sends parses (with an
   independent RFC 6455 parser, `parseHeader` / `parseFrames`) as unmasked final frames whose
@@ -187,6 +187,40 @@ theorem strict_continuation_without_start (c : Ctx) (e e1 : Env) (len : Nat) (bs
     parse2_continuation_without_start { c with hdr := c.hdr ++ bs } b0 b1 tl hh hnc hop hco
   rw [decode_parse2_error c e e1 len bs .eproto c' hst hrd hp]
   exact ⟨rfl, rfl⟩
+
+/-- **strict (reserved opcode).**  Opcodes 0x3-0x7 and 0xB-0xF (RFC 6455 5.2) end the call with
+EPROTO as soon as the first two header bytes are there: no payload, decoder reset.
+(fixes/C09-control-frame-limits.diff; before it such frames were skipped silently and, when longer
+than the decode buffer, wedged the decoder.) -/
+theorem strict_reserved_opcode (c : Ctx) (e e1 : Env) (len : Nat) (bs : List Byte) (b0 b1 : Byte)
+    (tl : List Byte) (hst : c.st = .headerPending)
+    (hrd : e.read c.nRead (hdrMissing c) = (.data bs, e1)) (hh : c.hdr ++ bs = b0 :: b1 :: tl)
+    (hres : isReservedOp (b0 &&& 0x0f) = true) :
+    (decode c e len).2.2 = .err .eproto ∧ (decode c e len).1.st = .headerPending ∧
+    (decode c e len).1.hdr = [] ∧ (decode c e len).1.contOp = opInvalid := by
+  obtain ⟨c', hp⟩ := parse2_reserved_opcode { c with hdr := c.hdr ++ bs } b0 b1 tl hh hres
+  rw [decode_parse2_error c e e1 len bs .eproto c' hst hrd hp]
+  exact ⟨rfl, rfl, rfl, rfl⟩
+
+/-- **strict (oversized control frame).**  A control frame (Close, Ping, Pong) whose length byte
+announces more than 125 bytes — i.e. any control frame using an extended length form (RFC 6455
+5.5) — ends the call with EPROTO as soon as the first two header bytes are there; its payload is
+never read into the buffer (this is what removes the pre-authentication wedge: without the check the
+write position was never reset for such frames and the decoder stopped reading for ever). -/
+theorem strict_oversized_control (c : Ctx) (e e1 : Env) (len : Nat) (bs : List Byte) (b0 b1 : Byte)
+    (tl : List Byte) (hst : c.st = .headerPending)
+    (hrd : e.read c.nRead (hdrMissing c) = (.data bs, e1)) (hh : c.hdr ++ bs = b0 :: b1 :: tl)
+    (hctl : (b0 &&& 0x0f) &&& 0x08 != 0) (hlen : (b1 &&& 0x7f).toNat > 125) :
+    (decode c e len).2.2 = .err .eproto ∧ (decode c e len).1.st = .headerPending ∧
+    (decode c e len).1.hdr = [] ∧ (decode c e len).1.contOp = opInvalid := by
+  obtain ⟨c', hp⟩ := parse2_oversized_control { c with hdr := c.hdr ++ bs } b0 b1 tl hh hctl hlen
+  rw [decode_parse2_error c e e1 len bs .eproto c' hst hrd hp]
+  exact ⟨rfl, rfl, rfl, rfl⟩
+
+-- non-vacuity: a masked ping announcing a 16-bit length, and a masked frame with opcode 0x3
+example : (((0x89 : Byte) &&& 0x0f) &&& 0x08 != 0) = true ∧ ((0xfe : Byte) &&& 0x7f).toNat > 125 := by decide
+example : isReservedOp ((0x83 : Byte) &&& 0x0f) = true ∧ isReservedOp ((0x8b : Byte) &&& 0x0f) = true ∧
+    isReservedOp 0x02 = false ∧ isReservedOp 0x0a = false := by decide
 
 /-- **strict (non-minimal 16-bit length).**  The complete header of a frame that uses the 16-bit
 form for a length below 126 is rejected by the only function that lets a header through
